@@ -182,6 +182,16 @@ class FieldData:
         fieldname == self.__class__.NAME_FIELD):
          renaming_connected = True
          if self.__class__.STORAGE_KEY == "name":
+           # groups refer to their items by name
+           # (except paths, which do not refer to links by name)
+           if gfapy.is_placeholder(value) and self.record_type != "L" and \
+               (self._refs.get("paths") or self._refs.get("sets")):
+             raise gfapy.RuntimeError(
+               "Line: {}\n".format(str(self))+
+               "The name of the line cannot be removed, as groups "+
+               "refer to the line:\n"+
+               "\n".join([str(g) for g in self._refs.get("paths", []) +
+                                           self._refs.get("sets", [])]))
            other = self._gfa.line(value) if isinstance(value, str) else None
            if other is not None and other is not self:
              raise gfapy.NotUniqueError(
